@@ -102,7 +102,10 @@ func (X *Exec) execInstr(fr *Frame, ins ssa.Instruction, st *State) {
 		X.setHeap(st, ln, ls, ts.Store(X.heap(st, ln, ls), r, ts.IntLit(0)))
 		fr.Regs[i] = &Val{T: r, GT: i.Type()}
 	case *ssa.MakeChan:
-		fr.Regs[i] = &Val{T: X.newRef(st, "mkchan"), GT: i.Type()}
+		ch := X.newRef(st, "mkchan")
+		cs := ArraySort(SInt, SInt)
+		X.setHeap(st, "GM|chancap", cs, ts.Store(X.heap(st, "GM|chancap", cs), ch, X.val(fr, i.Size).T))
+		fr.Regs[i] = &Val{T: ch, GT: i.Type()}
 	case *ssa.MakeInterface:
 		v := X.val(fr, i.X)
 		var t *Term
